@@ -26,7 +26,7 @@ ASSUMPTIONS = [
     "n <= 4 rows (quick) / 5-6 (thorough); G <= 3",
     "cummin/cummax with skip_na=False are checked only up to the group's first null (the statement "
     "defines the non-skipping mode for cumsum only); cumsum(skip_na=True) before the group's first "
-    "non-null value is unconstrained (0 or null)",
+    "non-null value must be 0 or null (the sum of nothing)",
     "int64 tables hold magnitudes above 2**53 so that a float detour is visible",
 ]
 
@@ -139,6 +139,11 @@ class CumSpace(Subspace):
                         for i in range(n):
                             if not defined[i]:
                                 continue
+                            if exp[i] == R.NEUTRAL:
+                                if obs[i] is None or obs[i] == 0:
+                                    continue
+                                bad = f"row {i}: nothing to sum yet, expected 0 or null, got {obs[i]}"
+                                break
                             if not C.same(exp[i], obs[i], odt if isinstance(odt, np.dtype) else None):
                                 bad = f"row {i}: expected {exp[i]} got {obs[i]}"
                                 break
